@@ -417,3 +417,34 @@ Proof.
   apply page_fits_plain_lemma in H; [|reflexivity|exact HW|exact Hl]. rewrite strip_sgr_lines in H.
   apply Forall_forall. intros ln Hln. rewrite Forall_forall in H. apply H, in_map, Hln.
 Qed.
+
+(* good_layout, decided *)
+Definition goodb (c : N) : bool := negb (N.eqb c ESC) && negb (N.eqb c BSL).
+Definition good_layoutb (l : layout) : bool :=
+  forallb (fun x => forallb goodb (elem_label (snd x)) && forallb goodb (elem_text (snd x))) l.
+Lemma goodb_good s : forallb goodb s = true -> Forall good s.
+Proof.
+  intros H. apply Forall_forall. intros c Hc. rewrite forallb_forall in H. specialize (H c Hc). unfold goodb in H.
+  apply andb_prop in H. destruct H as [H1 H2]. split; intros ->; discriminate.
+Qed.
+Lemma good_layoutb_ok l : good_layoutb l = true -> good_layout l.
+Proof.
+  intros H. apply Forall_forall. intros x Hx. unfold good_layoutb in H. rewrite forallb_forall in H. specialize (H x Hx).
+  apply andb_prop in H. destruct H. split; apply goodb_good; assumption.
+Qed.
+
+(* rendering through the plain formatter: it fits, or it fails with ValueError *)
+Theorem page_plain_fits_or_value_error_lemma W f l : f_kind f = FPlain -> 1 <= W -> one_line_labels l ->
+  match render_page W f l with
+  | Ok s => Forall (fun ln => zlen ln <= W - 1) (split_on 10%N s)
+  | Err k => k = ValueError
+  end.
+Proof.
+  intros Hk HW Hl. destruct (render_page W f l) as [s|k] eqn:E; [eapply page_fits_plain_lemma; eassumption|].
+  eapply render_error_kind_lemma, E.
+Qed.
+
+(* an undecorated colorize of a message that does not end with a backslash works line by line *)
+Theorem colorize_line_by_line sty sk m sk' out : colorize sty false sk m = Ok (sk', out) -> ends_with_bsl m = false ->
+  split_on 10%N out = map (plain_of sty false) (split_on 10%N m).
+Proof. intros H E. apply colorize_plain_of in H. rewrite E in H. subst out. apply plain_of_lines. Qed.
